@@ -626,8 +626,10 @@ package gedcom
 //@   ensures readers-error: implies(!isnil(result1), result1 == rerr && nRead == nKept + 1)
 //@   assigns alloc
 //@   trustframe
+// (C01 too: decoding keeps the order of the root records - a record is
+// appended behind everything the document already has.)
 //@ func Document.AddNode
-//@   props C03 C02
+//@   props C03 C02 C01
 //@   safety
 //@   requires doc != nil
 //@   ensures nonnil: implies(forall(i, 0, old(len(doc.nodes)), old(doc.nodes[i]) != nil), forall(i, 0, len(doc.nodes), doc.nodes[i] != nil))
@@ -885,6 +887,37 @@ package gedcom
 //@   only C20
 //@   trusted
 //@   pure
+// C13 (b): a HUSB / WIFE / CHIL line answers with what the document's pointer
+// index says NOW - it asks the document on every call and returns that very
+// answer (or nobody); an answer remembered in the line would survive the
+// deletion or replacement of the record it names.
+//@ func HusbandNode.Individual
+//@   props C13
+//@   inline
+//@   ghost nAsk int = 0
+//@   ghost ans iface
+//@   oncall Document.NodeByPointer check this-document: arg0 == node.family.document
+//@   oncall Document.NodeByPointer do nAsk = nAsk + 1; ans = result
+//@   ensures asks-the-document-now: implies(node != nil, nAsk == 1)
+//@   ensures the-documents-answer: result == nil || (nAsk == 1 && result == data(ans))
+//@ func WifeNode.Individual
+//@   props C13
+//@   inline
+//@   ghost nAsk int = 0
+//@   ghost ans iface
+//@   oncall Document.NodeByPointer check this-document: arg0 == node.family.document
+//@   oncall Document.NodeByPointer do nAsk = nAsk + 1; ans = result
+//@   ensures asks-the-document-now: implies(node != nil, nAsk == 1)
+//@   ensures the-documents-answer: result == nil || (nAsk == 1 && result == data(ans))
+//@ func ChildNode.Individual
+//@   props C13
+//@   inline
+//@   ghost nAsk int = 0
+//@   ghost ans iface
+//@   oncall Document.NodeByPointer check this-document: arg0 == node.family.document
+//@   oncall Document.NodeByPointer do nAsk = nAsk + 1; ans = result
+//@   ensures asks-the-document-now: implies(node != nil, nAsk == 1)
+//@   ensures the-documents-answer: result == nil || (nAsk == 1 && result == data(ans))
 //@ func HusbandNode.Individual
 //@   only C20
 //@   trusted
@@ -1506,10 +1539,19 @@ package gedcom
 //@   loop 1 iter iff: nSend - old(nSend) == ite(len(bs) > 0, 1, 0)
 //@   loop 1 iter marks: nStoreA - old(nStoreA) == nSend - old(nSend) && nStoreB - old(nStoreB) == nSend - old(nSend)
 //@   loop 1 nobreak
+// (no longer trusted: the individual a pointer lookup returns is ONE OF THE LIST
+// it was asked about - a lookup through the document's index can return someone
+// who is not a candidate of this comparison)
+//@ func IndividualNodes.ByPointer
+//@   props C11 C10
+//@   inline
+//@   ensures member-of-the-list: result == nil || exists(i, 0, len(nodes), nodes[i] == result)
+// (what the callers of the matching stages see of it; justified by the contract above)
 //@ func IndividualNodes.ByPointer
 //@   only C11 C10
 //@   trusted
 //@   pure
+//@   ensures member-of-the-list: result == nil || exists(i, 0, len(nodes), nodes[i] == result)
 //@ func IndividualNodes.ByUniqueIdentifiers
 //@   only C11 C10
 //@   trusted
